@@ -1237,8 +1237,8 @@ func c20Replay(t *testing.T, rep *kit.Report, cs *c20Case) {
 // construction and the middle part are the original methods) with two switches:
 //   fixRight   - checkRangeRightBound returns the accumulated mark instead of only the right part's mark
 //   nullFirst  - a null index key is read as -infinity (where the writer's sorter puts it) instead of +infinity
-//   isolate    - every range check works on a private copy of the index columns (Range.turnOpenRangeIntoClosed
-//                rewrites an integer bound in place, i.e. inside the cached index record)
+//   isolate    - a bound that Range.turnOpenRangeIntoClosed may rewrite in place (open integer bound) is a private
+//                copy instead of a reference into the cached index record
 // It is used only to NAME the cause of a violation that the unmodified code produced.
 type c20RefKC struct {
 	*KeyConditionImpl
@@ -1267,9 +1267,6 @@ func c20CloneRefs(refs []*FieldRef) []*FieldRef {
 }
 
 func (w *c20RefKC) MayBeInRange(usedKeySize int, l, r []*FieldRef, dataTypes []int) (bool, error) {
-	if w.isolate {
-		l, r = c20CloneRefs(l), c20CloneRefs(r)
-	}
 	if w.nullFirst {
 		for i := 0; i < usedKeySize; i++ {
 			if l[i].IsPositiveInfinity() {
@@ -1310,7 +1307,7 @@ func (w *c20RefKC) anyRange(keySize int, l, r []*FieldRef, lb, rb bool, rgs []*R
 	if prefix == keySize {
 		return cb(rgs)
 	}
-	res, completed, err := w.KeyConditionImpl.checkRangeLeftRightBound(l, r, lb, rb, keySize, init, rgs, dt, prefix, cb)
+	res, completed, err := w.middle(l, r, lb, rb, keySize, init, rgs, dt, prefix, cb)
 	if err != nil || completed {
 		return res, err
 	}
@@ -1338,6 +1335,51 @@ func (w *c20RefKC) anyRange(keySize int, l, r []*FieldRef, lb, rb bool, rgs []*R
 		}
 	}
 	return res, nil
+}
+
+// middle is KeyConditionImpl.checkRangeLeftRightBound; with isolate the bound handed to createLeftBounded /
+// createRightBounded (which rewrite an open integer bound in place) is a private copy.
+func (w *c20RefKC) middle(l, r []*FieldRef, lb, rb bool, keySize int, init Mark, rgs []*Range, dt []int, prefix int, cb checkInRangeFunc) (Mark, bool, error) {
+	own := func(f *FieldRef) *FieldRef {
+		if !w.isolate {
+			return f
+		}
+		return c20CloneRefs([]*FieldRef{f})[0]
+	}
+	if prefix+1 == keySize {
+		if lb && rb {
+			rgs[prefix] = NewRange(l[prefix], r[prefix], true, true)
+		} else if lb {
+			rgs[prefix] = createLeftBounded(own(l[prefix]), true, false)
+		} else if rb {
+			rgs[prefix] = createRightBounded(own(r[prefix]), true, false)
+		}
+		m, err := cb(rgs)
+		return m, true, err
+	}
+	if lb && rb {
+		rgs[prefix] = NewRange(l[prefix], r[prefix], false, false)
+	} else if lb {
+		rgs[prefix] = createLeftBounded(own(l[prefix]), false, dt[prefix] == influx.Field_Type_Unknown)
+	} else if rb {
+		rgs[prefix] = createRightBounded(own(r[prefix]), false, dt[prefix] == influx.Field_Type_Unknown)
+	}
+	for i := prefix + 1; i < keySize; i++ {
+		if dt[i] == influx.Field_Type_Unknown {
+			rgs[i] = createWholeRangeIncludeBound()
+		} else {
+			rgs[i] = createWholeRangeWithoutBound()
+		}
+	}
+	m, err := cb(rgs)
+	if err != nil {
+		return Mark{}, false, err
+	}
+	res := init.Or(m)
+	if res.isComplete() {
+		return res, true, nil
+	}
+	return res, false, nil
 }
 
 // c20Classifier re-runs the scan on pkRec with the reference recursion (each variant at most once per
